@@ -491,6 +491,13 @@ def fake_clearsign(text, kid='default'):
     return out.getvalue()
 
 
+def fd_count():
+    try:
+        return len(os.listdir('/proc/self/fd'))
+    except OSError:
+        return 10**6
+
+
 STAMP_NS = 1600000000 * 10**9
 LAST_STAMPS = []
 
